@@ -46,7 +46,7 @@ struct vpki_ent *vpki_make(const char *cn, struct vpki_ent *issuer, const struct
     snprintf(e->name, sizeof e->name, "%s", cn);
     e->issuer = issuer; e->is_ca = o->is_ca; e->eku = o->eku;
     e->not_before_off = o->not_before_off; e->not_after_off = o->not_after_off;
-    e->key = EVP_EC_gen("P-256");
+    e->key = o->rsa_key ? EVP_RSA_gen(2048) : EVP_EC_gen("P-256");
     if (!e->key) abort();
     X509 *x = X509_new();
     X509_set_version(x, 2);
